@@ -70,6 +70,16 @@ func c11Faults() []c11Fault {
 		{"modulo a fraction below one", func() Expr { return Bin("%", N("7"), N("0.5")) }, false},
 		{"modulo null", func() Expr { return Bin("%", N("7"), Mem(V("objv"), "nul")) }, false},
 		{"/= by a string that coerces to zero", func() Expr { return Asg("/=", V("numv"), S("x")) }, false},
+		// a container compared with itself is still a comparison of containers
+		{"array == the same array", func() Expr { return Bin("==", V("arrv"), V("arrv")) }, false},
+		{"object != the same object", func() Expr { return Bin("!=", V("objv"), V("objv")) }, false},
+		{"array <= its alias", func() Expr { return Bin("<=", V("arrv"), CallE(Mem(V("arrv"), "push"), N("3"))) }, false},
+		{"contains on a self-containing array", func() Expr { return CallE(Mem(V("cyc"), "contains"), Idx(V("cyc"), N("0"))) }, false},
+		{"match of an array against a literal", func() Expr {
+			return &MatchExpr{Subj: V("arrv"), Cases: []MatchCase{{Pats: []Expr{N("1")}, Body: S("one")}, {Pats: []Expr{V("x")}, Body: S("other")}}}
+		}, false},
+		// a call site that called a function the first time it ran meets a name that is shadowed by a number the second time
+		{"call site whose name is shadowed on its second evaluation", func() Expr { return Bin("+", CallE(V("viaSite"), N("0")), CallE(V("shadow"), N("3"))) }, false},
 		{"benign number", func() Expr { return N("7") }, true},
 		{"benign string", func() Expr { return S("s") }, true},
 		{"benign array", func() Expr { return V("arrv") }, true},
@@ -83,6 +93,10 @@ func c11Funcs() []*Func {
 		{Name: "rec", Body: Blk(&Return{CallE(V("rec"))})},
 		{Name: "idf", Params: []string{"v"}, Body: Blk(&Return{V("v")})},
 		{Name: "tr", Body: Blk(Pr(S("argument evaluated")), &Return{N("1")})},
+		// viaSite holds the one call site target(); shadow binds a parameter of that name (names are looked up dynamically)
+		{Name: "target", Body: Blk(&Return{N("1")})},
+		{Name: "viaSite", Params: []string{"z"}, Body: Blk(Pr(S("site runs")), &Return{CallE(V("target"))})},
+		{Name: "shadow", Params: []string{"target"}, Body: Blk(&Return{CallE(V("viaSite"), N("0"))})},
 	}
 }
 
